@@ -49,104 +49,130 @@ func (_this *markerObjectBuilder) String() string {
 	return fmt.Sprintf("%v<%v>", reflect.TypeOf(_this), _this.child)
 }
 
-func (_this *markerObjectBuilder) onObjectFinished(ctx *Context, dst reflect.Value) {
+// The marked object is not a container, so this builder's work is done once
+// the child has built it. This builder must be off the stack before the child
+// gets the object, because the child may stack or unstack builders itself (a
+// node stacks the builder for its children after getting its value, an edge
+// unstacks itself after getting its last component).
+func (_this *markerObjectBuilder) onObjectBegin(ctx *Context) {
 	if !_this.isContainer {
 		ctx.UnstackBuilder()
+	}
+}
+
+func (_this *markerObjectBuilder) onObjectFinished(ctx *Context, dst reflect.Value) {
+	if !_this.isContainer {
 		ctx.NotifyMarker(_this.id, dst)
 	}
 }
 
 func (_this *markerObjectBuilder) BuildFromNull(ctx *Context, dst reflect.Value) reflect.Value {
+	_this.onObjectBegin(ctx)
 	object := _this.child.BuildFromNull(ctx, dst)
 	_this.onObjectFinished(ctx, object)
 	return object
 }
 
 func (_this *markerObjectBuilder) BuildFromBool(ctx *Context, value bool, dst reflect.Value) reflect.Value {
+	_this.onObjectBegin(ctx)
 	object := _this.child.BuildFromBool(ctx, value, dst)
 	_this.onObjectFinished(ctx, object)
 	return object
 }
 
 func (_this *markerObjectBuilder) BuildFromInt(ctx *Context, value int64, dst reflect.Value) reflect.Value {
+	_this.onObjectBegin(ctx)
 	object := _this.child.BuildFromInt(ctx, value, dst)
 	_this.onObjectFinished(ctx, object)
 	return object
 }
 
 func (_this *markerObjectBuilder) BuildFromUint(ctx *Context, value uint64, dst reflect.Value) reflect.Value {
+	_this.onObjectBegin(ctx)
 	object := _this.child.BuildFromUint(ctx, value, dst)
 	_this.onObjectFinished(ctx, object)
 	return object
 }
 
 func (_this *markerObjectBuilder) BuildFromBigInt(ctx *Context, value *big.Int, dst reflect.Value) reflect.Value {
+	_this.onObjectBegin(ctx)
 	object := _this.child.BuildFromBigInt(ctx, value, dst)
 	_this.onObjectFinished(ctx, object)
 	return object
 }
 
 func (_this *markerObjectBuilder) BuildFromFloat(ctx *Context, value float64, dst reflect.Value) reflect.Value {
+	_this.onObjectBegin(ctx)
 	object := _this.child.BuildFromFloat(ctx, value, dst)
 	_this.onObjectFinished(ctx, object)
 	return object
 }
 
 func (_this *markerObjectBuilder) BuildFromBigFloat(ctx *Context, value *big.Float, dst reflect.Value) reflect.Value {
+	_this.onObjectBegin(ctx)
 	object := _this.child.BuildFromBigFloat(ctx, value, dst)
 	_this.onObjectFinished(ctx, object)
 	return object
 }
 
 func (_this *markerObjectBuilder) BuildFromDecimalFloat(ctx *Context, value compact_float.DFloat, dst reflect.Value) reflect.Value {
+	_this.onObjectBegin(ctx)
 	object := _this.child.BuildFromDecimalFloat(ctx, value, dst)
 	_this.onObjectFinished(ctx, object)
 	return object
 }
 
 func (_this *markerObjectBuilder) BuildFromBigDecimalFloat(ctx *Context, value *apd.Decimal, dst reflect.Value) reflect.Value {
+	_this.onObjectBegin(ctx)
 	object := _this.child.BuildFromBigDecimalFloat(ctx, value, dst)
 	_this.onObjectFinished(ctx, object)
 	return object
 }
 
 func (_this *markerObjectBuilder) BuildFromUID(ctx *Context, value []byte, dst reflect.Value) reflect.Value {
+	_this.onObjectBegin(ctx)
 	object := _this.child.BuildFromUID(ctx, value, dst)
 	_this.onObjectFinished(ctx, object)
 	return object
 }
 
 func (_this *markerObjectBuilder) BuildFromArray(ctx *Context, arrayType events.ArrayType, value []byte, dst reflect.Value) reflect.Value {
+	_this.onObjectBegin(ctx)
 	object := _this.child.BuildFromArray(ctx, arrayType, value, dst)
 	_this.onObjectFinished(ctx, object)
 	return object
 }
 
 func (_this *markerObjectBuilder) BuildFromStringlikeArray(ctx *Context, arrayType events.ArrayType, value string, dst reflect.Value) reflect.Value {
+	_this.onObjectBegin(ctx)
 	object := _this.child.BuildFromStringlikeArray(ctx, arrayType, value, dst)
 	_this.onObjectFinished(ctx, object)
 	return object
 }
 
 func (_this *markerObjectBuilder) BuildFromCustomBinary(ctx *Context, customType uint64, value []byte, dst reflect.Value) reflect.Value {
+	_this.onObjectBegin(ctx)
 	object := _this.child.BuildFromCustomBinary(ctx, customType, value, dst)
 	_this.onObjectFinished(ctx, object)
 	return object
 }
 
 func (_this *markerObjectBuilder) BuildFromCustomText(ctx *Context, customType uint64, value string, dst reflect.Value) reflect.Value {
+	_this.onObjectBegin(ctx)
 	object := _this.child.BuildFromCustomText(ctx, customType, value, dst)
 	_this.onObjectFinished(ctx, object)
 	return object
 }
 
 func (_this *markerObjectBuilder) BuildFromMedia(ctx *Context, mediaType string, data []byte, dst reflect.Value) reflect.Value {
+	_this.onObjectBegin(ctx)
 	object := _this.child.BuildFromMedia(ctx, mediaType, data, dst)
 	_this.onObjectFinished(ctx, object)
 	return dst
 }
 
 func (_this *markerObjectBuilder) BuildFromTime(ctx *Context, value compact_time.Time, dst reflect.Value) reflect.Value {
+	_this.onObjectBegin(ctx)
 	object := _this.child.BuildFromTime(ctx, value, dst)
 	_this.onObjectFinished(ctx, object)
 	return object
